@@ -48,6 +48,7 @@ import (
 	"crypto/ed25519"
 	"crypto/rsa"
 	"github.com/lestrrat-go/jwx/v2/jwa"
+	dto "github.com/prometheus/client_model/go"
 	"github.com/nuts-foundation/nuts-node/network/dag/tree"
 	"github.com/nuts-foundation/nuts-node/vdr/resolver"
 	"github.com/sirupsen/logrus"
@@ -950,7 +951,15 @@ func (n *v6Node) side() string {
 	pe := strings.Join(n.pevents, ",")
 	n.pevents = nil
 	n.mu.Unlock()
-	return fmt.Sprintf("iblt=%s@%d xor=%s@%d ibltfold=%s pe=%s", hex.EncodeToString(h[:6]), clock, xor.String()[:12], xclock, fold, pe)
+	// the Prometheus counter nuts_dag_transactions_total of THIS state instance (a restart makes a new one: compared by its moves)
+	mc := "-"
+	if n.st.transactionCount != nil {
+		var m dto.Metric
+		if err := n.st.transactionCount.Write(&m); err == nil && m.GetCounter() != nil {
+			mc = strconv.FormatFloat(m.GetCounter().GetValue(), 'f', -1, 64)
+		}
+	}
+	return fmt.Sprintf("iblt=%s@%d xor=%s@%d ibltfold=%s mc=%s pe=%s", hex.EncodeToString(h[:6]), clock, xor.String()[:12], xclock, fold, mc, pe)
 }
 
 func (n *v6Node) close() {
